@@ -183,13 +183,20 @@ def _task_huge(args):
     huge_nolf_then = b"\xfe" * 66000            # exceeds the limit before any line end is seen
     vios = []
     stats = {"runs": 0, "streams": 0, "nontrivial": 0, "outcomes": set()}
-    for seq in ([huge, items["A"]], [items["A"], huge, items["A2"]], [items["B1"], huge, items.get("B2", items["A2"])],
-                [huge_nolf_then + b"\r\n", items["A"]], [huge, huge, items["A"]]):
+    seqs = [[huge, items["A"]], [items["A"], huge, items["A2"]], [items["B1"], huge, items.get("B2", items["A2"])],
+            [huge_nolf_then + b"\r\n", items["A"]], [huge, huge, items["A"]]]
+    if kind == "actisense":
+        # the longest *valid* lines: a 223-byte and a 134-byte fast-packet payload in one Actisense record
+        from .. import wire as _w
+        long223 = (_w.actisense_line(3, 255, 5, 126720, bytes([1, 0]) + bytes(((i * 5) % 250) + 1 for i in range(221))) + "\r\n").encode()
+        long134 = (_w.actisense_line(3, 255, 5, 130816, bytes([2, 0]) + bytes(((i * 3) % 250) + 1 for i in range(132))) + "\r\n").encode()
+        seqs += [[items["A"], long223, items["A2"]], [long134, long223], [long223]]
+    for seq in seqs:
         stream = b"".join(seq)
         exp = expected(kind, stream)
         stats["streams"] += 1
         L = len(stream)
-        for cuts in ((), (30000,), tuple(range(4096, L, 4096)), tuple(range(65536, L, 65536)), (L - 3,), (69999, 70001)):
+        for cuts in ((), (30000,), tuple(range(4096, L, 4096)), tuple(range(65536, L, 65536)), (L - 3,), (69999, 70001), tuple(range(100, min(L, 2000), 100))):
             s, o = run_one(kind, split(stream, [c for c in cuts if 0 < c < L]), "ok")
             stats["runs"] += 1
             stats["nontrivial"] += 1
